@@ -28,7 +28,7 @@ EXIT_OK, EXIT_VIOLATION, EXIT_HARNESS = 0, 1, 2
 class Case:
     def __init__(self, name, fn, max_paths=64, timeout_ms=20000, branch_timeout_ms=4000,
                  portfolio=False, float_modules=(), nsamples=2, conc_rel=1e-6, conc_abs=0.0,
-                 custom=None, budget_s=None, expect_incomplete=False, validate=True, mode=None):
+                 custom=None, budget_s=None, expect_incomplete=False, validate=True, mode=None, domain_checks=True):
         self.name = name
         self.fn = fn
         self.max_paths = max_paths
@@ -44,6 +44,7 @@ class Case:
         self.expect_incomplete = expect_incomplete
         self.validate = validate
         self.mode = dict(mode or {})
+        self.domain_checks = domain_checks
 
 
 # ------------------------------------------------------------------ helpers
@@ -231,7 +232,18 @@ def run_case(case, tier, seed):
                 res['validation_points'] += 1
                 if abs(sa - ca) > max(1e-7, case.conc_rel) * max(abs(sa), abs(ca)) + 1e-300:
                     res['validation_mismatch'].append(dict(case=case.name, claim=cl.name, symbolic=sa, concrete=ca))
-        for cl in E.claims:
+        from .env import Claim as _Claim
+        dom_claims = []
+        seen_dom = set()
+        for k, (kind, term, idx) in enumerate(p.domain if case.domain_checks else []):
+            key = z3.simplify(term).get_id()
+            if key in seen_dom:
+                continue
+            seen_dom.add(key)
+            dc = _Claim('domain:%s#%d' % (kind, k), 'bool', t=(term >= 0), note='argument of sqrt must be >= 0 here: %s' % _clip(str(z3.simplify(term)), 160))
+            dc.hyps = p.cons_order[:idx]
+            dom_claims.append(dc)
+        for cl in list(E.claims) + dom_claims:
             res['claims'] += 1
             v = solve.discharge(p, cl, timeout_ms=case.timeout_ms, portfolio=case.portfolio)
             res['queries'] += v.queries
@@ -270,6 +282,8 @@ def run_case(case, tier, seed):
                     same = [f for f in fails if _base(f[0]) == _base(cl.name)]
                     if not same and cl.name == 'no_exception':
                         same = [f for f in fails if f[0] == 'no_exception']
+                    if not same and cl.name.startswith('domain:'):
+                        same = fails[:1]        # sqrt of a negative number shows up as NaN / ValueError in whatever is claimed
                     if same and v.how.startswith('tolerance'):
                         # candidate produced by the relative-tolerance stage: a rounding-level difference looks material
                         # wherever the compared quantity crosses zero.  A wrong formula persists when the inputs move by
